@@ -319,6 +319,8 @@ def install(ex):
     A(r"^std::fs::File::sync_all$", _file_call("sync_all"), "File::sync_all (recorded)")
     A(r"^<std::fs::File as fs2::FileExt>::lock_exclusive$", _file_call("lock"), "fs2 lock_exclusive (recorded)")
     A(r"^<std::fs::File as fs2::FileExt>::unlock$", _file_call("unlock"), "fs2 unlock (recorded)")
+    A(r"^<std::fs::File as (std::io::)?Write>::flush$", _file_call("flush-file"), "File::flush (recorded; NOT a sync)")
+    A(r"^std::fs::File::sync_data$", _file_call("sync_data"), "File::sync_data (recorded)")
     A(r"^<std::fs::File as (std::io::)?Write>::write_all$", _file_write_all, "File::write_all (recorded with its bytes)")
     A(r"^std::fs::metadata::<", _metadata, "fs::metadata (recorded; length is an input)")
     A(r"^std::fs::Metadata::len$", _metadata_len, "Metadata::len")
